@@ -41,23 +41,23 @@ type pendingCase struct {
 }
 
 type Ctx struct {
-	Prop    string
-	Tier    string
-	Seed    int64
-	Rng     *rand.Rand
-	Vdrv    string
+	Prop     string
+	Tier     string
+	Seed     int64
+	Rng      *rand.Rand
+	Vdrv     string
 	Thorough bool
 
-	pending   []pendingCase
-	Evals     int
-	distinct  map[uint64]struct{}
-	Nontriv   int
-	Samples   []string
-	Dist      map[string]int
-	Failures  []Failure
-	TracesOK  int
-	Notes     []string
-	MaxFail   int
+	pending  []pendingCase
+	Evals    int
+	distinct map[uint64]struct{}
+	Nontriv  int
+	Samples  []string
+	Dist     map[string]int
+	Failures []Failure
+	TracesOK int
+	Notes    []string
+	MaxFail  int
 }
 
 func (c *Ctx) count(key string) { c.Dist[key]++ }
@@ -271,18 +271,18 @@ var props = map[string]propFn{}
 var replays = map[string]replayFn{}
 
 type Summary struct {
-	Prop      string         `json:"prop"`
-	Tier      string         `json:"tier"`
-	Seed      int64          `json:"seed"`
-	Evals     int            `json:"evaluations"`
-	Distinct  int            `json:"distinct"`
-	Nontriv   int            `json:"distinct_nontrivial"`
-	TracesOK  int            `json:"traces_validated_against_impl"`
-	Samples   []string       `json:"samples"`
-	Dist      map[string]int `json:"distribution"`
-	Failures  []Failure      `json:"failures"`
-	Notes     []string       `json:"notes"`
-	WallS     float64        `json:"wall_s"`
+	Prop     string         `json:"prop"`
+	Tier     string         `json:"tier"`
+	Seed     int64          `json:"seed"`
+	Evals    int            `json:"evaluations"`
+	Distinct int            `json:"distinct"`
+	Nontriv  int            `json:"distinct_nontrivial"`
+	TracesOK int            `json:"traces_validated_against_impl"`
+	Samples  []string       `json:"samples"`
+	Dist     map[string]int `json:"distribution"`
+	Failures []Failure      `json:"failures"`
+	Notes    []string       `json:"notes"`
+	WallS    float64        `json:"wall_s"`
 }
 
 func main() {
